@@ -7,7 +7,7 @@
    capacity assertion can never fire (capacity invariant; this is what failed before the repair of F3). *)
 From Coq Require Import List Bool Arith.
 Import ListNotations.
-From MV Require Import Ext.Util Ext.UtilP.
+From MV Require Import Ext.Util Ext.UtilP Ext.GenBulk Gen.BulkFns Ext.BulkTie.
 
 Theorem C18_evenly_each_source_once : forall fuel perms src dsize r, 0 < dsize ->
   (forall p, In p perms -> length p = dsize) ->
@@ -51,3 +51,24 @@ Proof. exact randomly_unbounded_never_asserts. Qed.
 Print Assumptions C18_completes_unbounded.
 Example C18_nonvacuous : connect_randomly_uneven [0; 0] [10; 11] [20; 21] (Some 1) = ROk [(10, 20); (11, 21)].
 Proof. vm_compute. reflexivity. Qed.
+
+(* tie to the source: the four helpers as regenerated from mosaik/util.py on every run (statement by statement, the random
+   choices as an oracle argument, `connected` as the list of elements added to the returned set) are the model the theorems
+   above are about *)
+Theorem C18_generated_many_to_one_is_the_model : forall src d, connect_many_to_one_gen src d = connect_many_to_one src d.
+Proof. exact tie_many_to_one. Qed.
+Print Assumptions C18_generated_many_to_one_is_the_model.
+Theorem C18_generated_connect_randomly_is_the_model : forall evenly fuel shuffles choices src dest maxc,
+  (dest = [] -> connect_randomly_gen evenly fuel shuffles choices src dest maxc = GAssert) /\
+  (dest <> [] -> evenly = true ->
+     connect_randomly_gen evenly fuel shuffles choices src dest maxc =
+     match connect_evenly fuel shuffles src (length dest) with Some r => GOk r (map snd r) | None => GOracle end) /\
+  (dest <> [] -> evenly = false ->
+     to_rres (connect_randomly_gen evenly fuel shuffles choices src dest maxc) = connect_randomly_uneven choices src dest maxc /\
+     forall r c, connect_randomly_gen evenly fuel shuffles choices src dest maxc = GOk r c -> forall d, In d c <-> In d (connected_set r)).
+Proof. exact tie_connect_randomly. Qed.
+Print Assumptions C18_generated_connect_randomly_is_the_model.
+Example C18_generated_nonvacuous :
+  connect_randomly_gen false 0 [] [0; 0] [10; 11] [20; 21] (Some 1) = GOk [(10, 20); (11, 21)] [20; 21] /\
+  connect_randomly_gen true 5 [[2; 0; 1]; [1; 2; 0]] [] [10; 11; 12; 13] [0; 1; 2] None = GOk [(10, 2); (11, 0); (12, 1); (13, 1)] [2; 0; 1; 1].
+Proof. vm_compute. split; reflexivity. Qed.
